@@ -13,6 +13,7 @@ Definition dispatch (cmd : string) (input : string) : string :=
   | "lin" => run_lin input
   | "codegen-x86" => run_codegen_x86 input
   | "heap-x86" => run_heap_x86 input
+  | "wf-x86" => run_wf_x86 input
   | "show-x86" => run_show_x86 input
   | "c10-x86" => run_c10_x86 input
   | "stages" => run_stages input
